@@ -10,12 +10,11 @@ random trace IDs the kept fraction is 1/N within statistical tolerance.
 Quantifier: all trace IDs and all rates (deterministic sampler 1..2^31, stress relief 1..2^64-1).
 
 The hash is a parameter: every theorem quantifies over *all* hash values `h` (and, where trace
-IDs appear, over all hash functions `hash : String → Nat`).  The theorems about the deterministic
-sampler hold on `1 ≤ rate < 2^32`, which contains the property's `1..2^31`; outside that range the
-model shows what the code does with a value that configuration validation accepts (`Start`
-divides by `uint32(rate)`): see `det_start_panics_iff`, `det_rate_le_one_full_refuted`,
-`det_nested_all_ints_refuted`.  Those corners are outside C10's quantifier (they are C28 material)
-and are only recorded here.
+IDs appear, over all hash functions `hash : String → Nat`).  Since the C28 repair of `Start`
+(`if rate > 1 { upperBound = uint32(MaxUint32 / uint64(rate)) }`) the theorems about the
+deterministic sampler hold for EVERY `int` rate: no configured value panics, every rate ≤ 1 keeps
+everything, and threshold, nesting and fraction bound hold for all rates ≥ 1 (beyond the
+property's `1..2^31`; for rates ≥ 2^32 only the hash value 0 is kept).
 -/
 namespace Refinery.Props.C10
 open Refinery.Model.Deterministic
@@ -56,15 +55,17 @@ theorem keptCount_congr (p q : Nat → Bool) (T : Nat) (hpq : ∀ h, h < T → p
   intro h hh
   exact hpq h (List.mem_range.mp hh)
 
-theorem toU32_of_range (r : Int) (h0 : 0 ≤ r) (h1 : r < 4294967296) : toU32 r = r.toNat := by
-  unfold toU32
-  rw [Int.emod_eq_of_lt h0 h1]
-
 theorem det_start_eq (rate : Int) :
-    Det.start rate = if toU32 rate = 0 then .panicDivZero
-      else .ok { sampleRate := rate, upperBound := maxU32 / toU32 rate } := by
-  unfold Det.start udiv
-  by_cases h : toU32 rate = 0 <;> simp [h]
+    Det.start rate = .ok { sampleRate := rate,
+                           upperBound := if rate > 1 then maxU32 / rate.toNat else 0 } := by
+  unfold Det.start udiv toU32
+  by_cases h : rate > 1
+  · have h0 : rate.toNat ≠ 0 := by omega
+    have hlt : maxU32 / rate.toNat < 4294967296 := by
+      have := Nat.div_le_self maxU32 rate.toNat
+      unfold maxU32 at this ⊢; omega
+    simp [h, h0, Nat.mod_eq_of_lt hlt]
+  · simp [h]
 
 theorem stress_update_eq (rate : Nat) :
     Stress.update rate = .ok { sampleRate := if rate = 0 then 1 else rate,
@@ -74,28 +75,12 @@ theorem stress_update_eq (rate : Nat) :
 
 /-! ## Deterministic sampler -/
 
-/-- `Start` panics (integer divide by zero) exactly for the configured rates whose low 32 bits are
-all zero: 0, ±2^32, ±2^33, …  (outside C10's quantifier; recorded for C28). -/
-theorem det_start_panics_iff (rate : Int) :
-    Det.start rate = .panicDivZero ↔ rate % 4294967296 = 0 := by
+/-- `Start` never panics, whatever `int` is configured (0, negatives and multiples of 2^32
+included): the division only happens for `rate > 1`, in 64 bits. -/
+theorem det_never_panics (rate : Int) (h : Nat) : ∃ d, detSample rate h = .ok d := by
+  unfold detSample
   rw [det_start_eq]
-  have hnn : 0 ≤ rate % 4294967296 := Int.emod_nonneg _ (by decide)
-  unfold toU32
-  constructor
-  · intro h
-    by_cases hz : (rate % 4294967296).toNat = 0
-    · omega
-    · simp [hz] at h
-  · intro h
-    simp [h]
-
-/-- On `1 ≤ rate < 2^32` a sampler is constructed, it remembers the rate and its threshold is
-`⌊MaxUint32 / rate⌋`. -/
-theorem det_start_in_range (rate : Int) (h1 : 1 ≤ rate) (h2 : rate < 4294967296) :
-    Det.start rate = .ok { sampleRate := rate, upperBound := maxU32 / rate.toNat } := by
-  rw [det_start_eq, toU32_of_range rate (by omega) h2]
-  have : rate.toNat ≠ 0 := by omega
-  simp [this]
+  exact ⟨_, rfl⟩
 
 /-- **pure** — the decision is a function of the hash value of the trace ID and of the rate only:
 whatever the hash function, two trace IDs with the same hash value get the same answer (same
@@ -112,96 +97,61 @@ theorem det_agreement (rate : Int) (d₁ d₂ : Det) (h₁ : Det.start rate = .o
   cases h₂
   rfl
 
-/-- Full-strength reading of "a rate of 1 or less keeps everything" over every `int` the
-configuration accepts. -/
-def RateLeOneFull : Prop :=
-  ∀ (rate : Int) (h : Nat), rate ≤ 1 →
-    detSample rate h = .ok { rate := 1, keep := true, reason := .detAlways }
-
-/-- Refuted by rate 0: `Start` divides by `uint32(0)`.  (Outside C10's quantifier `1..2^31`.) -/
-theorem det_rate_le_one_full_refuted : ¬ RateLeOneFull := by
-  intro h
-  have := h 0 0 (by decide)
-  revert this
-  decide
-
-/-- **rate_le_one_keeps_all** (partial: every rate ≤ 1 whose low 32 bits are not all zero, in
-particular rate 1 and every negative rate above −2^32) — every trace is kept, reported rate 1. -/
-theorem det_rate_le_one_keeps_all_partial (rate : Int) (h : Nat) (hle : rate ≤ 1)
-    (hnz : rate % 4294967296 ≠ 0) :
+/-- **rate_le_one_keeps_all** (full statement, every `int` ≤ 1: 1, 0 and all negatives) — every
+trace is kept and rate 1 is reported. -/
+theorem det_rate_le_one_keeps_all (rate : Int) (h : Nat) (hle : rate ≤ 1) :
     detSample rate h = .ok { rate := 1, keep := true, reason := .detAlways } := by
-  have hnp : toU32 rate ≠ 0 := by
-    have hnn : 0 ≤ rate % 4294967296 := Int.emod_nonneg _ (by decide)
-    unfold toU32
-    omega
   unfold detSample
   rw [det_start_eq]
-  simp [hnp, Det.get, hle]
+  simp [Det.get, hle]
 
-/-- **rate_le_one_keeps_all** at the only rate ≤ 1 inside the property's quantifier. -/
-theorem det_rate_one_keeps_all (h : Nat) :
-    detSample 1 h = .ok { rate := 1, keep := true, reason := .detAlways } :=
-  det_rate_le_one_keeps_all_partial 1 h (by decide) (by decide)
-
-/-- **threshold** — for `2 ≤ rate < 2^32` the trace is kept exactly when `hash · rate ≤ MaxUint32`
+/-- **threshold** — for every rate `≥ 2` the trace is kept exactly when `hash · rate ≤ MaxUint32`
 (equivalently `hash ≤ ⌊MaxUint32 / rate⌋`), and the configured rate is reported. -/
-theorem det_keep_iff (rate : Int) (h : Nat) (h1 : 2 ≤ rate) (h2 : rate < 4294967296) :
+theorem det_keep_iff (rate : Int) (h : Nat) (h1 : 2 ≤ rate) :
     detSample rate h = .ok { rate := rate.toNat, keep := decide (h * rate.toNat ≤ maxU32),
                              reason := .detChance } := by
   unfold detSample
-  rw [det_start_in_range rate (by omega) h2]
+  rw [det_start_eq]
   have hgt : ¬ rate ≤ 1 := by omega
+  have hgt' : rate > 1 := by omega
   have hpos : 0 < rate.toNat := by omega
-  simp only [Det.get, hgt, if_false]
+  simp only [Det.get, hgt, hgt', if_false, if_true]
   congr 2
   exact decide_eq_decide.mpr (Nat.le_div_iff_mul_le hpos)
 
-/-- keep flag on `1 ≤ rate < 2^32` for a 32-bit hash value: under the threshold `⌊MaxUint32/rate⌋`
+/-- keep flag for every rate `≥ 1` and a 32-bit hash value: under the threshold `⌊MaxUint32/rate⌋`
 (at rate 1 the threshold is `MaxUint32` itself, so the early return and the comparison agree). -/
-theorem detKeeps_eq (rate : Int) (h : Nat) (h1 : 1 ≤ rate) (h2 : rate < 4294967296)
-    (hh : h ≤ maxU32) : detKeeps rate h = decide (h ≤ maxU32 / rate.toNat) := by
-  unfold detKeeps detSample
-  rw [det_start_in_range rate h1 h2]
+theorem detKeeps_eq (rate : Int) (h : Nat) (h1 : 1 ≤ rate) (hh : h ≤ maxU32) :
+    detKeeps rate h = decide (h ≤ maxU32 / rate.toNat) := by
+  unfold detKeeps
   by_cases hr : rate ≤ 1
   · have : rate = 1 := by omega
     subst this
-    simp [Det.get, hh]
-  · simp [Det.get, hr]
+    rw [det_rate_le_one_keeps_all 1 h (by decide)]
+    simp [hh]
+  · rw [det_keep_iff rate h (by omega)]
+    simp only
+    exact decide_eq_decide.mpr (Nat.le_div_iff_mul_le (by omega)).symm
 
-/-- **nested** — for rates `1 ≤ M ≤ N < 2^32` and every hash value: a trace kept at rate `N` is
-kept at rate `M` (because `⌊U/N⌋ ≤ ⌊U/M⌋`). -/
-theorem det_nested (M N : Int) (h : Nat) (hM : 1 ≤ M) (hMN : M ≤ N) (hN : N < 4294967296)
-    (hk : detKeeps N h = true) : detKeeps M h = true := by
+/-- **nested** (full statement, every pair of `int` rates) — for `M ≤ N` and every hash value: a
+trace kept at rate `N` is kept at rate `M` (because `⌊U/N⌋ ≤ ⌊U/M⌋`; rates ≤ 1 keep everything). -/
+theorem det_nested (M N : Int) (h : Nat) (hMN : M ≤ N) (hk : detKeeps N h = true) :
+    detKeeps M h = true := by
   by_cases hM1 : M ≤ 1
-  · have : M = 1 := by omega
-    subst this
-    unfold detKeeps
-    rw [det_rate_one_keeps_all]
-  · have hN2 : 2 ≤ N := by omega
-    unfold detKeeps at hk ⊢
-    rw [det_keep_iff N h hN2 hN] at hk
-    rw [det_keep_iff M h (by omega) (by omega)]
+  · unfold detKeeps
+    rw [det_rate_le_one_keeps_all M h hM1]
+  · unfold detKeeps at hk ⊢
+    rw [det_keep_iff N h (by omega)] at hk
+    rw [det_keep_iff M h (by omega)]
     simp only [decide_eq_true_eq] at hk ⊢
     have : h * M.toNat ≤ h * N.toNat := Nat.mul_le_mul_left h (by omega)
     omega
 
-/-- Full-strength nesting over every pair of `int` rates the configuration accepts. -/
-def NestedAllInts : Prop :=
-  ∀ (M N : Int) (h : Nat), 1 ≤ M → M ≤ N → h ≤ maxU32 → detKeeps N h = true → detKeeps M h = true
-
-/-- Refuted beyond `uint32`: rate `2^32 + 2` is truncated to 2 by `uint32(sampleRate)`, so the hash
-value `2^31 − 1` is kept at the (reported) rate `2^32 + 2` and dropped at rate 3.
-(Outside C10's quantifier `1..2^31`; recorded for C28.) -/
-theorem det_nested_all_ints_refuted : ¬ NestedAllInts := by
-  intro h
-  have := h 3 4294967298 2147483647 (by decide) (by decide) (by decide) (by decide)
-  revert this
-  decide
-
-/-- **fraction_bound** — for `2 ≤ N < 2^32`, of the `2^32` possible hash values exactly
+/-- **fraction_bound** — for every rate `N ≥ 1`, of the `2^32` possible hash values exactly
 `K = ⌊MaxUint32/N⌋ + 1 = ⌈2^32/N⌉` are kept: `2^32 ≤ N·K < 2^32 + N`, i.e. the kept fraction of hash
-values is in `[1/N, 1/N + 2^-32)` — within one hash value of `2^32/N`. -/
-theorem det_fraction_bound (N : Int) (h1 : 1 ≤ N) (h2 : N < 4294967296) :
+values is in `[1/N, 1/N + 2^-32)` — within one hash value of `2^32/N` (for `N ≥ 2^32`: exactly one,
+the hash value 0). -/
+theorem det_fraction_bound (N : Int) (h1 : 1 ≤ N) :
     keptCount (detKeeps N) 4294967296 = maxU32 / N.toNat + 1 ∧
     4294967296 ≤ N.toNat * keptCount (detKeeps N) 4294967296 ∧
     N.toNat * keptCount (detKeeps N) 4294967296 < 4294967296 + N.toNat := by
@@ -210,7 +160,7 @@ theorem det_fraction_bound (N : Int) (h1 : 1 ≤ N) (h2 : N < 4294967296) :
     rw [ht, ← kept_count_threshold maxU32 N.toNat]
     apply keptCount_congr
     intro h hh
-    exact detKeeps_eq N h h1 h2 (by omega)
+    exact detKeeps_eq N h h1 (by omega)
   have hb := ceil_bounds maxU32 N.toNat (by omega)
   rw [hc]
   exact ⟨rfl, hb.1, hb.2⟩
@@ -362,9 +312,11 @@ example : detSample 2147483648 1 = .ok { rate := 2147483648, keep := true, reaso
 example : detSample 2147483648 2 = .ok { rate := 2147483648, keep := false, reason := .detChance } := by decide
 example : detSample 4294967295 1 = .ok { rate := 4294967295, keep := true, reason := .detChance } := by decide
 example : detSample (-1) 4294967295 = .ok { rate := 1, keep := true, reason := .detAlways } := by decide
-example : detSample 0 7 = .panicDivZero := by decide
-example : detSample 4294967296 7 = .panicDivZero := by decide
-example : detSample 4294967298 2147483647 = .ok { rate := 4294967298, keep := true, reason := .detChance } := by decide
+example : detSample 0 7 = .ok { rate := 1, keep := true, reason := .detAlways } := by decide
+example : detSample (-4294967296) 7 = .ok { rate := 1, keep := true, reason := .detAlways } := by decide
+example : detSample 4294967296 0 = .ok { rate := 4294967296, keep := true, reason := .detChance } := by decide
+example : detSample 4294967296 1 = .ok { rate := 4294967296, keep := false, reason := .detChance } := by decide
+example : detSample 4294967298 2147483647 = .ok { rate := 4294967298, keep := false, reason := .detChance } := by decide
 example : keptCount (detKeeps 3) 16 = 16 := by decide   -- all 16 smallest hash values are under U/3
 example : stressSample 0 18446744073709551615 = .ok { rate := 1, keep := true, reason := .stressAlways } := by decide
 example : stressSample 100 184467440737095516 = .ok { rate := 100, keep := true, reason := .stressDet } := by decide
